@@ -11,7 +11,10 @@ from . import extract
 
 VERIF = extract.VERIF
 KNOWN = os.path.join(VERIF, "known_findings.txt")
-EVID = os.path.join(VERIF, "evidence")
+# evidence describes runs against /repo itself; analyses of scratch trees (self-validation mutants, seeded changes:
+# VERIF_REPO set) write theirs next to the scratch tree so that they never overwrite it
+EVID = os.environ.get("VERIF_EVIDENCE_DIR") or (
+    os.path.join(os.environ["VERIF_REPO"], ".verif-evidence") if os.environ.get("VERIF_REPO") else os.path.join(VERIF, "evidence"))
 
 
 def _load_floors():
